@@ -33,6 +33,9 @@ def md_method(tname, mname, **kw):
     return d
 
 
+HINTING_NAMES = ["isEMFrac", "hasTrackProb", "passScore", "passesCut", "nHitsFrac", "numLayers", "countOf", "getIndex", "is_ok", "flag"]
+
+
 def c10_schema(backend: str) -> Dict[str, Any]:
     s = sch.clone(sch.fixed(backend))
     main = s["main"]["coll"]
@@ -65,6 +68,20 @@ def c10_schema(backend: str) -> Dict[str, Any]:
     m["m_uint"] = num("unsigned int", md=md_method(jet, "m_uint", return_type="unsigned int"))
     m["m_short"] = num("short", md=md_method(jet, "m_short", return_type="short"))
     m["und"] = num("double", declared=False)
+    # undeclared members whose NAMES suggest another type (predicates, counters): the documented assumption is double, whatever the name
+    for hn in HINTING_NAMES:
+        m[hn] = num("double", declared=False)
+    m["hasField"] = sch.field("double")
+    m["nField"] = sch.field("double")
+    # two classes whose names differ by a version suffix only, with the same member names declared differently
+    s["classes"]["ns::Hit"] = {"header": hdr.replace("Obj", "Hit"), **lib, "members": {
+        "time": num("int", md=md_method("ns::Hit", "time", return_type="int")), "pos": obj(O, 1, md=md_method("ns::Hit", "pos", return_type=O + "*")),
+        "charge": num("double", declared=False)}}
+    s["classes"]["ns::Hit_v2"] = {"header": hdr.replace("Obj", "Hit_v2"), **lib, "members": {
+        "time": num("double", declared=False), "pos": obj(O, 0, md=md_method("ns::Hit_v2", "pos", return_type=O)),
+        "charge": num("int", md=md_method("ns::Hit_v2", "charge", return_type="int"))}}
+    m["hit"] = obj("ns::Hit", 0, md=md_method(jet, "hit", return_type="ns::Hit"))
+    m["hit2"] = obj("ns::Hit_v2", 0, md=md_method(jet, "hit2", return_type="ns::Hit_v2"))
     m["t_big"] = num("unsigned long long", md=md_method(jet, "t_big", return_type="unsigned long long", tree_type="int"))
     m["t_dbl"] = num("double", declared=True, md=md_method(jet, "t_dbl", return_type="double", tree_type="float"))
     m["o_val"] = obj(O, 0, md=md_method(jet, "o_val", return_type=O))
@@ -122,6 +139,13 @@ def templates(s, backend) -> List[Tuple[str, str, str]]:
         T += [(mth, "value", f"j.{mth}()"), (mth, "arith", f"(j.{mth}() * 2 + 1)"), (mth, "compare", f"(j.{mth}() > 1)"),
               # the same bare value one level deeper: a vector-of-vectors column carries the declared (tree) type too
               (mth, "nested_value", f"j.v_f().Select(lambda v: j.{mth}())")]
+    for mth in HINTING_NAMES:
+        T += [(mth, "undeclared_hinting_name_value", f"j.{mth}()"), (mth, "undeclared_hinting_name_arith", f"(j.{mth}() / 2 + 1)"), (mth, "undeclared_hinting_name_nested", f"j.v_f().Select(lambda v: j.{mth}())")]
+    T += [("hasField", "undeclared_hinting_data_member", "j.hasField"), ("nField", "undeclared_hinting_data_member", "(j.nField * 2)")]
+    # version-suffixed twin classes: each follows its own declarations
+    T += [("hit", "twin_declared_int", "j.hit().time()"), ("hit2", "twin_undeclared", "j.hit2().time()"), ("hit", "twin_both", "(j.hit().time() + j.hit2().time())"),
+          ("hit", "twin_pointer_member", "j.hit().pos().val()"), ("hit2", "twin_value_member", "j.hit2().pos().val()"), ("hit2", "twin_both_rev", "(j.hit2().charge() - j.hit().charge())"),
+          ("hit", "twin_both_members", "(j.hit().pos().n() + j.hit2().pos().n())")]
     for mth in ("o_val", "o_ptr", "o_cptr", "o_pp"):
         T += [(mth, "member", f"j.{mth}().val()"), (mth, "member_int", f"j.{mth}().n()"), (mth, "member_arith", f"(j.{mth}().val() + j.{mth}().n())"),
               (mth, "member_collection", f"j.{mth}().vals().Count()"), (mth, "member_collection_sum", f"j.{mth}().vals().Sum()"),
